@@ -219,8 +219,8 @@ HaggBody(v, len) == CASE v = 1 -> Zeros(len) [] v = 2 -> Rep(255, len)
 HaggN == IF Thorough THEN 0..5 ELSE 0..3
 HaggCases == { << "hagg", n, l, v >> : n \in HaggN, l \in 0..(32 * (5 + 2)), v \in 1..3 }   \* l > 32(n+2) is mapped onto Skip
         \cup { << "hinc", l, nb, nn >> : l \in { 0, 31, 32, 33, 64, 95, 96, 97, 128, 160 }, nb \in 1..7, nn \in 1..6 }
-IncNb == << U64(0, 0), U64(0, 1), U64(0, 2), U64(0, 3), U64(255, 255), U64(255, 254), U64(128, 0) >>
-IncNn == << U64(0, 0), U64(0, 1), U64(0, 2), U64(255, 255), U64(128, 0), U64(127, 255) >>
+IncNb == << U64(0, 0), U64(0, 1), U64(0, 2), U64(0, 3), Rep(255, 8), Rep(255, 7) \o << 254 >>, U64(128, 0) >>       \* .., 2^64-1, 2^64-2, 2^63
+IncNn == << U64(0, 0), U64(0, 1), U64(0, 2), Rep(255, 8), U64(128, 0), << 127 >> \o Rep(255, 7) >>                      \* .., 2^64-1, 2^63, 2^63-1
 \* small counts stay inside the harness pools; huge counts that do not overflow are refused by the length check; overflowing ones
 \* are documented illegal use (Icb)
 
@@ -252,7 +252,7 @@ SjData(n, pat, d) ==
 RpRings(m) == IF m = 0 THEN 1 ELSE (m \div 2) + (m % 2)
 RpNpub(m)  == IF m = 0 THEN 1 ELSE 4 * (m \div 2) + 2 * (m % 2)
 RpNeed(m)  == 32 * (RpNpub(m) + RpRings(m) - 1) + 32 + ((RpRings(m) + 6) \div 8)
-RpMin == << U64(0, 0), U64(0, 1), U64(128, 0), U64(255, 255), U64(255, 254), U64(127, 255) >>
+RpMin == << U64(0, 0), U64(0, 1), U64(128, 0), Rep(255, 8), Rep(255, 7) \o << 254 >>, << 127 >> \o Rep(255, 7) >>   \* 0, 1, 2^63, 2^64-1, 2^64-2, 2^63-1
 \* b0: header byte (bit 7 reserved, bit 6 non-zero range, bit 5 minimum present, bits 0..4 exponent); b1: mantissa - 1
 RpProof(b0, b1, mi, sg, d) ==
   LET nz == ((b0 \div 64) % 2) = 1   hasmin == ((b0 \div 32) % 2) = 1
